@@ -533,10 +533,10 @@ class Engine:
             return ('cex', self.solver.model())
         return ('unknown', self.solver.reason_unknown())
 
-    def prove_i(self, claim):
+    def prove_i(self, claim, scale=1):
         """integer-level obligation: NIA for counterexamples, linear abstraction for proofs"""
         import intprove
-        return intprove.prove_int(self.pc, claim, stats=self.stats)
+        return intprove.prove_int(self.pc, claim, stats=self.stats, scale=scale)
 
     # ---- taint mode (property C08): every value derived from a symbolic (secret) input collapses to one opaque
     # symbol per width; a branch or an index on such a value is recorded as an event
